@@ -124,7 +124,7 @@ def c07(ctx):
                         prog = rand_program(rng, 6 if ctx.quick else 30)
                         if rng.random() < 0.15:
                             prog = []            # the application ignores its input altogether
-                        ev = drv.run_program(stream, cuts, prog, body, source=rng.choice(["iter", "sock"]))
+                        ev = drv.run_program(stream, cuts, prog, body, source=rng.choice(["iter", "sock", "tls"]))
                         traces.append({"blen": blen, "nls": nls, "ev": ev})
                         metas.append({"kind": "real", "blen": blen, "nl": nlstyle, "framing": framing, "layout": lay[:10],
                                       "prog": prog, "ncuts": len(cuts), "cuts": cuts[:20], "trailers": bool(trailers),
